@@ -7,7 +7,7 @@ bad = 0
 m = json.load(open('/verif/MANIFEST.json'))
 try:
     jsonschema.validate(m, json.load(open('/root/.vp/MANIFEST.schema.json')))
-    print('MANIFEST ok:', len(m.get('claimed', m.get('properties', []))), 'claimed')
+    print('MANIFEST ok:', len(m.get('checks', [])), 'claimed')
 except jsonschema.ValidationError as e:
     bad += 1
     print('MANIFEST INVALID:', e.message[:300])
